@@ -3,12 +3,12 @@
 package proxy
 
 import (
-	"net/url"
 	"crypto/tls"
-	"github.com/fabiolb/fabio/metrics"
 	"fmt"
+	"github.com/fabiolb/fabio/metrics"
 	"net/http"
 	"net/http/httptest"
+	"net/url"
 	"strings"
 	"testing"
 	"time"
@@ -24,7 +24,7 @@ var c13Templates = []string{
 	"https://t.example/", "https://t.example/fixed/page?x=1", "https://t.example$path", "https://t.example/$path",
 	"https://t.example/x$path", "https://t.example/x/$path", "https://$host$path", "https://$host/$path", "https://$host/x/$path",
 	"https://$host/", "https://t.example$path?own=1", "https://t.example/x/$path?own=1", "http://$host:8443/$path",
-	"https://t.example/a%20b/$path", // a template whose own path needs escaping
+	"https://t.example/a%20b/$path",  // a template whose own path needs escaping
 	"https://t.example/docs#install", // a target with a fragment (no $path: the Location is the target as written)
 }
 
@@ -309,8 +309,17 @@ func TestVerifC13Inputs(t *testing.T) {
 	for _, tm := range []string{"https://foo.com/$path", "https://foo.com$path", "https://foo.com/", "https://foo.com/?own=1", "https://$host/$path"} {
 		for _, xfp := range []string{"", "https", "http"} {
 			for _, p := range []string{"/", "/a/b"} {
-				for _, q := range []string{"", "q=1"} {
-					r.setTable("route add redir foo.com/ " + tm + " opts \"redirect=301\"\nroute add app / http://" + r.upAddr + "/\n")
+				for qi, q := range []string{"", "q=1", "", ""} {
+					switch qi {
+					case 2:
+						// the next matching host is a host entry of its own (the redirect sits on the host written with its port),
+						// a catch-all to a closed port stands behind both and must not be the one that answers
+						r.setTable("route add redir foo.com:80/ " + tm + " opts \"redirect=301\"\nroute add app foo.com/ http://" + r.upAddr + "/\nroute add decoy / http://127.0.0.1:1/\n")
+					case 3:
+						r.setTable("route add redir foo.com/ " + tm + " opts \"redirect=301\"\nroute add app *.com/ http://" + r.upAddr + "/\nroute add decoy / http://127.0.0.1:1/\n")
+					default:
+						r.setTable("route add redir foo.com/ " + tm + " opts \"redirect=301\"\nroute add app / http://" + r.upAddr + "/\n")
+					}
 					r.script = script{status: 200, chunks: [][]byte{[]byte("app")}}
 					var hdr [][2]string
 					if xfp != "" {
@@ -329,11 +338,11 @@ func TestVerifC13Inputs(t *testing.T) {
 						panic(err)
 					}
 					L.Case()
-					L.NontrivialKey("self" + tm + xfp + target)
+					L.NontrivialKey(fmt.Sprint("self", tm, xfp, target, qi))
 					want, _ := c13Expand(tm, p, q, "foo.com", "", "")
 					wantPath := strings.SplitN(strings.TrimPrefix(want, "https://foo.com"), "?", 2)[0]
 					self := xfp == "https" && wantPath == p
-					d := map[string]interface{}{"template": tm, "x_forwarded_proto": xfp, "request": target, "status": rec.Code, "location": rec.Header().Get("Location"), "upstream_hits": hits, "redirect_would_point_back": self}
+					d := map[string]interface{}{"template": tm, "table_shape": []string{"redirect on foo.com, app host-less", "same", "redirect on foo.com:80, app on foo.com, catch-all decoy", "redirect on foo.com, app on *.com, catch-all decoy"}[qi], "x_forwarded_proto": xfp, "request": target, "status": rec.Code, "location": rec.Header().Get("Location"), "upstream_hits": hits, "redirect_would_point_back": self}
 					if self {
 						if rec.Code != 200 || hits != 1 || rec.Body.String() != "app" {
 							L.Violation("self-redirect-not-skipped", d)
